@@ -250,7 +250,7 @@ pub fn def() -> CheckDef {
             "claims whose outcome depends on the few microseconds a call takes are withheld and counted (coverage.maxima.undetermined_claims)",
         ],
         sections: vec![
-            Box::new(PropSection { name: "virtual-time", rule: "histories with the ageing hook", strategy: virtual_strategy, cases: (30_000, 1_000_000), check: check_virtual }),
+            Box::new(PropSection { name: "virtual-time", rule: "histories with the ageing hook", strategy: virtual_strategy, cases: (150_000, 2_000_000), check: check_virtual }),
             Box::new(PropSection { name: "real-clock", rule: "histories with real sleeps", strategy: real_strategy, cases: (32, 256), check: check_real }),
         ],
     }
